@@ -1242,6 +1242,9 @@ sf_command	(SNDFILE *sndfile, int command, void *data, int datasize)
 
 				position = psf_fseek (psf, 0, SEEK_CUR) ;
 
+				/* Whatever followed the audio data is cut off as well. */
+				psf->dataend = 0 ;
+
 				return psf_ftruncate (psf, position) ;
 				} ;
 			break ;
